@@ -31,10 +31,14 @@ WRAP_OF = {"Add": "wrapping_add", "Sub": "wrapping_sub", "Mul": "wrapping_mul", 
            "Neg": "wrapping_neg"}
 
 
+_INT_WIDTH = {"i8": 8, "u8": 8, "i16": 16, "u16": 16, "i32": 32, "u32": 32, "i64": 64, "u64": 64, "isize": 64,
+              "usize": 64, "i128": 128, "u128": 128}
+
+
 def rule_num_wrap(cx, tier):
     r = RuleResult("R-NUM-WRAP", "integer arithmetic of the number tower wraps by construction: the operator impls of "
-                                 "KNumber (+ - * % unary-, pow) contain no overflow-checked integer arithmetic and use "
-                                 "the wrapping_* operation that matches the operator")
+                                 "KNumber (+ - * % unary-, pow) contain no overflow-checked integer arithmetic, use "
+                                 "the wrapping_* operation that matches the operator, and narrow no operand with `as`")
     insts = []
     for fn in cx.F.fns.values():
         if fn.crate.uname != "koto_runtime" or fn.kind == "Closure":
@@ -56,6 +60,31 @@ def rule_num_wrap(cx, tier):
             r.add(Finding("R-NUM-WRAP", fn.qual, t[1], f"the {tr} implementation contains overflow-checked integer "
                           f"arithmetic ({t[1]}): integer results no longer wrap and overflow panics in debug builds",
                           fn.file, loc_line(t[6])))
+        # no operand is squeezed into a narrower integer type on the way (the exponent of `^` reaches wrapping_pow's u32
+        # through a checked conversion, not `as u32`)
+        for b in fn.blocks:
+            if b.cleanup:
+                continue
+            for st in b.stmts:
+                if st[0] == "a" and st[2][0] == "cast" and st[2][1] == "IntToInt" and st[2][2][0] != "k":
+                    src = fn.crate.tstr(fn.local_ty(st[2][2][1][0])) if st[2][2][1] else None
+                    dst = fn.local_tstr(st[1][0])
+                    if _INT_WIDTH.get(dst, 0) < _INT_WIDTH.get(src, 0):
+                        # a cast under a dominating range test of the same value is a checked conversion spelled by hand
+                        from .narrow import FnBounds
+                        fb = FnBounds(cx, fn)
+                        try:
+                            m = fb.at(b.idx).mag(fb.sym.expr(st[2][2]))
+                        except Exception:
+                            m = None
+                        w = _INT_WIDTH[dst] - (1 if dst.startswith("i") else 0)
+                        if m is not None and m <= (1 << w) - 1:
+                            continue
+                        verdict = "violation"
+                        r.add(Finding("R-NUM-WRAP", fn.qual, f"narrowed:{src}->{dst}",
+                                      f"the {tr} implementation narrows an operand with `as {dst}` (from {src}): values "
+                                      f"beyond {dst}'s range are silently reduced before the operation (`2 ^ 4294967296` "
+                                      f"evaluated as `2 ^ 0`)", fn.file, line_of(fn, b.idx)))
         want = WRAP_OF.get(tr, "wrapping_pow")
         has = any((c.pretty or "").endswith("::" + want) for c in fn.calls())
         if not has:
